@@ -55,6 +55,10 @@ CLAIMED.update({
  'C05': dict(technique='finite-table extraction from MIR (State variant -> increments / displayed numbers) compared with the specification table; must-call + provenance rules for per-hunk initialisation (incl. the coordinate parser reading only the text between the @@ markers); abstract evaluation of the line painter over the panel domain',
     text='Decides the increment/number table for all 16 State variants, that counters are re-seeded from the first/last coordinate pair on every path of the hunk-header emitter, and that increment=false exactly for the Left panel.',
     note=RULE_NOTE + ' Not decided: side-by-side compensation arithmetic, widths, header text.', design='5/C05'),
+ 'C07': dict(technique='MIR must-pass / ordering rule on the alignment loop of the side-by-side painter, table agreement of MinusPlus indices and alignment-pair components per panel, sibling agreement of paint/pad sides, constant-array order for unchanged lines',
+    text='Decides only the structural clauses of C07: every side-by-side row is left panel + right panel + newline, appended once each and in order on every path; the left panel is fed exclusively from Left(minus)-indexed data and component 0 of the alignment pair, the right panel from Right(plus)-indexed data and component 1; a panel line is padded for the side it was painted for; unchanged lines are painted for Left then Right with one newline per row. '
+         'NOT decided (value-level arithmetic over display widths): panel widths, wrap points, losslessness of wrapping, truncation marks, that no row exceeds the width, column alignment.',
+    note=RULE_NOTE + ' A change that breaks only the geometry / wrapping clauses is outside what this check can see.', design='6, 11.10'),
  'C08': dict(technique='MIR who-may-read rule: every call receiving StateMachine.raw_line-derived data classified as carry/emit, escape-aware/documented, ingest guard, or violation; byte-accounting rule on the escape iterator (must-pass + finite-domain evaluation of Perform::execute over all control bytes); partial evaluation of the raw-line decision with is_raw fixed (RAW-STYLE)',
     text='Decides that no decision or parse in the renderer is taken on the raw (possibly coloured) line outside the enumerated escape-aware functions: a necessary condition for coloured and uncoloured input to be treated alike; and that the escape-sequence iterator counts every text byte (printed characters by UTF-8 length, each C0 control byte once) so that stripping removes escape sequences only; and that a line whose style is `raw` always keeps its raw form.',
     note=RULE_NOTE + ' Byte equality of the two runs and moved-line colours are value-level and not decided.', design='5/C08'),
@@ -85,7 +89,6 @@ CLAIMED.update({
 })
 NOT_APPLICABLE = {
  'C06': 'Soundness/minimality of a dynamic-programming token alignment and a distance threshold over all string pairs: arithmetic on runtime values; no structural necessary condition beyond what the 35 unit tests already pin (DESIGN.md section 6).',
- 'C07': 'Panel widths, wrap points and truncation are arithmetic over display widths of runtime strings; no pairing/ownership/table structure carries the property (DESIGN.md section 6).',
 }
 PENDING = 'check not built yet in this round (designed in DESIGN.md section 5; will be claimed when its rule set runs clean)'
 
